@@ -101,8 +101,9 @@ class Simulation:
             return self.raw_args
 
         # Compute new otherwise
-        # The model's own values may have been changed since the last simulation
-        current = self.model.get_parameter_values()
+        # The model's own declarations (numbers and assignments) may have been changed
+        # since the simulation, put them back afterwards
+        current = self.model.get_raw_parameters()
         for res, p in zip(self.raw_variables, self.raw_parameters, strict=True):
             self.model.update_parameters(p)
             self.raw_args.append(
@@ -425,13 +426,14 @@ class Simulation:
     ) -> pd.DataFrame | list[pd.DataFrame]:
         """Get right hand side over time."""
         args_by_simulation = self._compute_args()
+        current = self.model.get_raw_parameters()
+        rhs = [
+            self.model.update_parameters(p).get_right_hand_side_time_course(args=args)
+            for args, p in zip(args_by_simulation, self.raw_parameters, strict=True)
+        ]
+        self.model.update_parameters(current)
         return self._adjust_data(
-            [
-                self.model.update_parameters(p).get_right_hand_side_time_course(
-                    args=args
-                )
-                for args, p in zip(args_by_simulation, self.raw_parameters, strict=True)
-            ],
+            rhs,
             normalise=normalise,
             concatenated=concatenated,
         )
@@ -475,6 +477,7 @@ class Simulation:
         concatenated: bool = True,
     ) -> pd.DataFrame | list[pd.DataFrame]:
         """Get fluxes of variable with positive stoichiometry."""
+        current = self.model.get_raw_parameters()
         self.model.update_parameters(self.raw_parameters[0])
         names = [
             k
@@ -495,7 +498,7 @@ class Simulation:
                 for k in names:
                     v.loc[:, k] *= stoichs[k]
 
-        self.model.update_parameters(self.raw_parameters[-1])
+        self.model.update_parameters(current)
         if concatenated:
             return pd.concat(fluxes, axis=0)
         return fluxes
@@ -539,6 +542,7 @@ class Simulation:
         concatenated: bool = True,
     ) -> pd.DataFrame | list[pd.DataFrame]:
         """Get fluxes of variable with negative stoichiometry."""
+        current = self.model.get_raw_parameters()
         self.model.update_parameters(self.raw_parameters[0])
         names = [
             k
@@ -559,7 +563,7 @@ class Simulation:
                 for k in names:
                     v.loc[:, k] *= -stoichs[k]
 
-        self.model.update_parameters(self.raw_parameters[-1])
+        self.model.update_parameters(current)
         if concatenated:
             return pd.concat(fluxes, axis=0)
         return fluxes
